@@ -225,7 +225,7 @@ package sam
 // Atoi) and the optional fields (parseTags); accepts exactly the lines with >= 11 fields whose integer fields are
 // decimal integers and whose optional fields are well formed.
 //@ func parseLine
-//@   props C03 C11
+//@   props C03 C11 C06 C07 C18
 //@   let L := old(line)
 //@   let n := old(len(line))
 //@   let R := result.0
@@ -244,7 +244,7 @@ package sam
 //@   ensures @C03 result.1 == nil ==> samParsed(R.Qname, R.Flag, R.Rname, R.Pos, R.Mapq, R.Cigar, R.Rnext, R.Pnext, R.Tlen, R.Seq, R.Qual, maphas(R.Tags), mapval(R.Tags), arr(L), n)
 
 //@ func parseInts
-//@   props C03 C11
+//@   props C03 C11 C06 C07 C18
 //@   modifies p
 //@   requires forall k int :: 0 <= k && k < len(p) ==> p[k] != nil
 //@   panics len(strs) != len(p)
@@ -258,7 +258,7 @@ package sam
 // parseTags (C03, C11): decoder = spec (specs/25sam.spec: tagOK, tname, tval). Every field must be well formed;
 // the result maps each name to the typed value of its LAST occurrence and has no other keys.
 //@ func parseTags
-//@   props C03 C11
+//@   props C03 C11 C06 C07 C18
 //@   fresh-result
 //@   let n := len(values)
 //@   ensures result.1 == nil || localErr(result.1)
@@ -277,7 +277,7 @@ package sam
 //@     invariant forall k string :: has(result, k) ==> exists j int :: 0 <= j && j < K && tname(values[j]) == k && result[k] == tval(values[j])
 
 //@ func splitTag
-//@   props C03 C11
+//@   props C03 C11 C06 C07 C18
 //@   let c1 := colon1(tag)
 //@   let c2 := colon2(tag)
 //@   ensures result.1 == nil || localErr(result.1)
@@ -296,7 +296,7 @@ package sam
 // tagToText (C03): NAME ':' type letter ':' value text, the value text being the byte itself (A), the decimal
 // rendering (i), FormatFloat 'e' (f), the string (Z) or lower-case hex (H); any other dynamic type panics.
 //@ func tagToText
-//@   props C03 C11
+//@   props C03 C11 C07
 //@   panics !(dynbyte(val) || dynint(val) || dynfloat(val) || dynstr(val) || dynbytes(val))
 //@   ensures isTagText(result, tag, val)
 //@   let n := len(tag)
